@@ -303,7 +303,9 @@ def options(rng, n, maxfev=(30, 160), allow=("scale", "nb_points", "radius",
 def callback(rng, stop=True):
     cb = {"conv": str(rng.choice(["kw", "pos"])),
           "form": str(rng.choice(["def", "lambda", "object", "partial",
-                                  "unhashable"]))}
+                                  "unhashable", "falsy", "mixed_sig"]))}
+    if cb["form"] == "mixed_sig":
+        cb["conv"] = "pos"
     if stop and rng.random() < 0.4:
         cb["stop_at"] = int(rng.integers(1, 40))
     if rng.random() < 0.2:
